@@ -129,6 +129,27 @@ fn main() {
             write_ndjson(&args[4], &items);
             println!("{} cases, {} executed", items.len(), n_run);
         }
+        "retabs" => {
+            // tsgv retabs <pool.json> <out.json>: tables of every (regex, subject) of a pool (oracle: regex crate)
+            let pool: J = serde_json::from_str(&std::fs::read_to_string(&args[2]).expect("pool")).expect("json");
+            let mut tabs = Vec::new();
+            let mut infos = Vec::new();
+            for re in pool["regexes"].as_array().unwrap() {
+                let re = re.as_str().unwrap();
+                let compiled = regex::Regex::new(re);
+                infos.push(json!({"re": re, "valid": compiled.is_ok(),
+                                  "ngroups": compiled.as_ref().map(|r| r.captures_len()).unwrap_or(0),
+                                  "nullable": compiled.as_ref().map(|r| r.captures("").is_some()).unwrap_or(false)}));
+                for subj in pool["subjects"].as_array().unwrap() {
+                    if let Some(t) = oracle::regex_table(re, subj.as_str().unwrap()) {
+                        tabs.push(t);
+                    }
+                }
+            }
+            let out = json!({"regexes": infos, "subjects": pool["subjects"], "tabs": tabs});
+            std::fs::write(&args[3], serde_json::to_string(&out).unwrap()).unwrap();
+            println!("{} tables", out["tabs"].as_array().unwrap().len());
+        }
         "retab" => {
             // tsgv retab <cases.ndjson> <requests.json> <out.ndjson>: adds the regex tables the specification asked for
             let mut items = read_ndjson(&args[2]);
